@@ -65,6 +65,8 @@ var refPairs = []refPair{
 	{"instant", "execution/function", "ensureMonotonic", "ensureMonotonic"},
 	{"instant", "execution/function", "buckets.Less", "buckets.Less"},
 	{"agg", "execution/aggregate", "quantile", "quantile"},
+	{"agg", "execution/aggregate", "convertibleToInt64", "convertibleToInt64"},
+	{"hints", "execution", "getTimeRangesForVectorSelector", "Engine.getTimeRangesForSelector"},
 	{"range", "execution/scan", "selectPoints", "evaluator.matrixIterSlice"},
 	{"select", "execution/scan", "selectPoint", "evaluator.vectorSelectorSingle"},
 }
@@ -77,6 +79,8 @@ func init() {
 		Doc: "the range-vector window selection (scan.selectPoints against evaluator.matrixIterSlice) and every range-function kernel and helper: " + refDoc})
 	register(&Rule{ID: "R-REFPORT-INSTANT", Min: 25, Run: func(p *core.Program) []core.Obligation { return ruleRefPort(p, "R-REFPORT-INSTANT", "instant") },
 		Doc: "every instant-function kernel and the histogram quantile helpers: " + refDoc})
+	register(&Rule{ID: "R-REFPORT-HINTS", Min: 1, Run: func(p *core.Program) []core.Obligation { return ruleRefPort(p, "R-REFPORT-HINTS", "hints") },
+		Doc: "the time range of a storage select (execution.getTimeRangesForVectorSelector) is derived with the kinds of integer arithmetic of the reference's getTimeRangesForSelector only: start and end minus look-back, range and offset - no rounding, alignment or scaling of the hinted range"})
 	register(&Rule{ID: "R-REFPORT-AGG", Min: 5, Run: func(p *core.Program) []core.Obligation {
 		return append(ruleRefPort(p, "R-REFPORT-AGG", "agg"), ruleRefAggArms(p, "R-REFPORT-AGG")...)
 	},
@@ -102,6 +106,7 @@ var refAllow = map[string]map[string]int{
 type refSig struct {
 	elems  map[string]int
 	consts map[string]bool
+	intOps map[string]bool // kinds of integer (int64) arithmetic used; compared for the time-range derivation only
 }
 
 func (s *refSig) String() string {
@@ -140,7 +145,7 @@ type refWalker struct {
 }
 
 func newRefWalker(pk *packages.Package) *refWalker {
-	w := &refWalker{pk: pk, decls: map[*types.Func]*ast.FuncDecl{}, seen: map[*types.Func]bool{}, sig: &refSig{elems: map[string]int{}, consts: map[string]bool{}}}
+	w := &refWalker{pk: pk, decls: map[*types.Func]*ast.FuncDecl{}, seen: map[*types.Func]bool{}, sig: &refSig{elems: map[string]int{}, consts: map[string]bool{}, intOps: map[string]bool{}}}
 	for _, f := range pk.Syntax {
 		for _, d := range f.Decls {
 			if fd, ok := d.(*ast.FuncDecl); ok {
@@ -180,7 +185,7 @@ func (w *refWalker) reached(name string) bool {
 
 func (w *refWalker) opKind(e ast.Expr) string {
 	if tv, ok := w.pk.TypesInfo.Types[e]; ok && tv.Value != nil {
-		return "c:" + tv.Value.String()
+		return "c:" + tv.Value.ExactString()
 	}
 	return "v"
 }
@@ -199,7 +204,7 @@ func (w *refWalker) walk(body ast.Node) {
 				_, leaf = info.Uses[y.Sel].(*types.Const)
 			}
 			if tv, ok := info.Types[e]; ok && leaf && tv.Value != nil && isFloatBasic(tv.Type) {
-				if v := tv.Value.String(); v != "0" {
+				if v := tv.Value.ExactString(); v != "0" {
 					w.sig.consts[v] = true
 				}
 				if _, isSel := e.(*ast.SelectorExpr); isSel {
@@ -224,6 +229,12 @@ func (w *refWalker) walk(body ast.Node) {
 			case token.MUL, token.QUO:
 				if isFloatBasic(info.TypeOf(x)) {
 					w.sig.elems["A"+x.Op.String()]++
+				}
+			}
+			switch x.Op {
+			case token.ADD, token.SUB, token.MUL, token.QUO, token.REM, token.AND, token.OR, token.XOR, token.SHL, token.SHR, token.AND_NOT:
+				if isInt64Basic(info.TypeOf(x)) {
+					w.sig.intOps[x.Op.String()] = true
 				}
 			}
 			switch x.Op {
@@ -252,6 +263,9 @@ func (w *refWalker) walk(body ast.Node) {
 				}
 			}
 		case *ast.AssignStmt:
+			if len(x.Lhs) == 1 && isInt64Basic(info.TypeOf(x.Lhs[0])) && x.Tok != token.ASSIGN && x.Tok != token.DEFINE {
+				w.sig.intOps[strings.TrimSuffix(x.Tok.String(), "=")] = true
+			}
 			if len(x.Lhs) == 1 && isFloatBasic(info.TypeOf(x.Lhs[0])) {
 				switch x.Tok {
 				case token.MUL_ASSIGN:
@@ -435,6 +449,15 @@ func ruleRefPort(p *core.Program, rule, class string) []core.Obligation {
 		for k := range wa.sig.consts {
 			if !wb.sig.consts[k] {
 				diff = append(diff, "constant "+k+" does not occur in the reference")
+			}
+		}
+		if class == "hints" {
+			// the reference also handles subqueries: only the kinds of integer arithmetic are compared
+			diff = nil
+			for op := range wa.sig.intOps {
+				if !wb.sig.intOps[op] {
+					diff = append(diff, "integer operation "+op+" does not occur in the reference's derivation (which only subtracts offsets and ranges)")
+				}
 			}
 		}
 		sort.Strings(diff)
@@ -712,6 +735,37 @@ func init() {
 func labelOpSig(pk *packages.Package, nodes []ast.Node) map[string]int {
 	out := map[string]int{}
 	info := pk.TypesInfo
+	// helpers of the same package are followed (once each)
+	decls := newRefWalker(pk).decls
+	seen := map[*types.Func]bool{}
+	var queue []ast.Node
+	queue = append(queue, nodes...)
+	nodes = nil
+	for len(queue) > 0 {
+		n := queue[0]
+		queue = queue[1:]
+		nodes = append(nodes, n)
+		ast.Inspect(n, func(x ast.Node) bool {
+			call, ok := x.(*ast.CallExpr)
+			if !ok {
+				return true
+			}
+			var obj types.Object
+			switch f := call.Fun.(type) {
+			case *ast.Ident:
+				obj = info.Uses[f]
+			case *ast.SelectorExpr:
+				obj = info.Uses[f.Sel]
+			}
+			if fo, ok := obj.(*types.Func); ok && fo.Pkg() == pk.Types && !seen[fo] {
+				if fd := decls[fo]; fd != nil && fd.Body != nil {
+					seen[fo] = true
+					queue = append(queue, fd.Body)
+				}
+			}
+			return true
+		})
+	}
 	isStr := func(e ast.Expr) bool {
 		b, ok := info.TypeOf(e).Underlying().(*types.Basic)
 		return ok && b.Info()&types.IsString != 0
@@ -789,4 +843,14 @@ func ruleRefLabels(p *core.Program) []core.Obligation {
 	}
 	sort.Strings(ks)
 	return []core.Obligation{core.Ob(rule, key, p.Pos(a2.Pos()), "buildOutputSeries", core.Held, "same label operations: "+strings.Join(ks, "; "))}
+}
+
+func init() {
+	mutant(Mutant{Rule: "R-REFPORT-AGG", Name: "int64-bound-rounded-up", File: "execution/aggregate/khashaggregate.go",
+		Old: "\treturn v <= maxInt64 && v >= minInt64\n", New: "\treturn v <= math.MaxInt64 && v >= math.MinInt64\n", Expect: "convertibleToInt64"})
+}
+
+func init() {
+	mutant(Mutant{Rule: "R-REFPORT-HINTS", Name: "hinted-end-aligned-to-step-grid", File: "execution/execution.go",
+		Old: "\toffset := n.OriginalOffset.Milliseconds()\n\treturn start - offset, end - offset\n", New: "\toffset := n.OriginalOffset.Milliseconds()\n\tif step := opts.Step.Milliseconds(); step > 0 && n.Timestamp == nil {\n\t\tend -= end % step\n\t}\n\treturn start - offset, end - offset\n", Expect: "getTimeRangesForVectorSelector"})
 }
